@@ -96,7 +96,7 @@ _sub_basename.add(r"\?", r".")  # ? everywhere
 
 
 def _sub_extension(pattern):
-    return _sub_basename(pattern[2:])
+    return r".*\." + _sub_basename(pattern[2:])
 
 
 class Globster:
@@ -134,7 +134,7 @@ class Globster:
     pattern_info = {
         "extension": {
             "translator": _sub_extension,
-            "prefix": r"(?:.*/)?(?!.*/)(?:.*\.)",
+            "prefix": r"(?:.*/)?(?!.*/)",
         },
         "basename": {"translator": _sub_basename, "prefix": r"(?:.*/)?(?!.*/)"},
         "fullpath": {"translator": _sub_fullpath, "prefix": r""},
